@@ -1383,6 +1383,17 @@ class DMLQuery(object):
         self._batch = batch_obj
         return self
 
+    def _conditions_on_regular_columns(self, conditionals):
+        """
+        tells whether one of the conditions names a non-static column: such a
+        condition is about the instance's row and needs its full primary key
+        """
+        for condition in conditionals or []:
+            col = self.model._get_column_by_db_name(condition.field)
+            if col is not None and not col.static:
+                return True
+        return False
+
     def _delete_null_columns(self, conditionals=None):
         """
         executes a delete query to remove columns that have changed to null
@@ -1404,6 +1415,8 @@ class DMLQuery(object):
                     static_only &= col.static
 
         if deleted_fields:
+            if static_only and self._conditions_on_regular_columns(conditionals):
+                static_only = False
             keys = self.model._partition_keys if static_only else self.model._primary_keys
             for name, col in keys.items():
                 ds.add_where(col, EqualsOperator(), getattr(self.instance, name))
@@ -1447,6 +1460,8 @@ class DMLQuery(object):
                 updated_columns.add(col.db_field_name)
 
         if statement.assignments:
+            if static_changed_only and self._conditions_on_regular_columns(self._conditional):
+                static_changed_only = False
             for name, col in self.model._primary_keys.items():
                 # only include clustering key if clustering key is not null, and non-static columns are changed to avoid cql error
                 if (null_clustering_key or static_changed_only) and (not col.partition_key):
